@@ -28,6 +28,10 @@ type snapView struct {
 	m *model.KV
 }
 
+// S and M expose a snapshot view to checks.
+func (v *snapView) S() *leveldb.Snapshot { return v.s }
+func (v *snapView) M() *model.KV          { return v.m }
+
 type iterView struct {
 	it iterator.Iterator
 	m  []model.Pair
